@@ -10,6 +10,9 @@ def run(chk):
     from .misc_contracts import named_serdes
     named_serdes(chk, "C14")   # pass-through (callback results) and plain JSON (invoke payloads / results): the round trips replay relies on
     per_instance_state_of_modules(chk, "C14.classes.state_is_per_instance", ['context', 'operation.callback', 'operation.invoke', 'state'])   # no object created in a class body: instances share no mutable state through the class
+    from . import state_contracts as _S, lockset as _L
+    _S.create_checkpoint(chk, "C14", want=("C10",))    # the contract of create_checkpoint that create_callback / invoke rely on: an orphan is refused before anything is queued, no lock is left broken
+    _L.lock_discipline(chk, "C14", ["_parent_done", "_parent_to_children", "_completed_contexts"])
     ex = explore("callback")
     handler_preamble(chk, ex, FUNCS["callback"])
     hobl.c14_callback_create(chk, ex)
